@@ -368,7 +368,7 @@ var classes = []struct {
 	{"plain", 36}, {"css", 12}, {"css-order", 4}, {"style-after-attr", 4}, {"css-vs-style", 3},
 	{"dash", 6}, {"dash-sw", 4},
 	{"style-before-attr", 3}, {"css-vs-attr", 3}, {"css-specificity", 3}, {"css-on-ancestor", 3}, {"css-id", 3},
-	{"bare-group", 6}, {"skew", 3}, {"fill-rule", 3}, {"rx-ry", 3}, {"viewbox-origin", 3}, {"miterlimit", 3}, {"fit", 2}, {"err", 2},
+	{"bare-group", 6}, {"xform-comma", 3}, {"aspect", 3}, {"skew", 3}, {"fill-rule", 3}, {"rx-ry", 3}, {"viewbox-origin", 3}, {"miterlimit", 3}, {"fit", 2}, {"err", 2},
 }
 
 func genDoc(c *hc.Ctx) *Doc {
@@ -500,6 +500,14 @@ func genDocClass(c *hc.Ctx, class string) *Doc {
 		d.Features["fit"] = true
 		c.Count("head:none")
 	}
+	if class == "aspect" {
+		// viewBox with another aspect ratio than the viewport and no preserveAspectRatio: xMidYMid meet
+		w, h := Val{K: 'D', Num: vw}, Val{K: 'D', Num: vh}
+		d.W, d.H = &w, &h
+		d.VB = &[4]float64{0, 0, vw * []float64{0.5, 2, 1.5}[c.Intn(3)], vh}
+		d.PAR = false
+		d.Features["aspect"] = true
+	}
 	if d.VB != nil && (class == "viewbox-origin" || c.Chance(0.3)) {
 		// any origin is ordinary since 32efa25
 		d.VB[0], d.VB[1] = float64(5+c.Intn(30)), float64(5+c.Intn(30))
@@ -508,6 +516,14 @@ func genDocClass(c *hc.Ctx, class string) *Doc {
 		}
 		if c.Chance(0.3) {
 			d.VB[1] = -d.VB[1]
+		}
+		if class == "viewbox-origin" && c.Chance(0.4) {
+			// min-x (min-y) beyond the width (height): regression class of fdd9e33
+			if c.Bool() {
+				d.VB[0] = d.VB[2] + float64(c.Intn(50))
+			} else {
+				d.VB[1] = d.VB[3] + float64(c.Intn(50))
+			}
 		}
 		d.Features["viewbox-origin"] = true
 	}
@@ -772,6 +788,16 @@ func genDocClass(c *hc.Ctx, class string) *Doc {
 			kids = append(kids, container(1), probe())
 		}
 		root.Kids = kids
+	case class == "xform-comma":
+		// transform functions separated by a comma (SVG 1.1 7.6: comma-wsp between transforms)
+		s := pickShape()
+		v := g.transform(false)
+		for len(v.Xf) < 2 {
+			v = g.transform(false)
+		}
+		v.FSep = []string{",", ", ", " , "}[c.Intn(3)]
+		forceAttr(s, "transform", v, c.Bool())
+		d.Features["xform-comma"] = true
 	case class == "fill-rule":
 		s := pickShape()
 		forceAttr(s, "fill-rule", kw("evenodd"), c.Bool())
